@@ -33,6 +33,7 @@ type FSInode struct {
 	Content *smt.Term // String: everything written so far
 	Mode    *smt.Term // Int
 	Writes  int
+	Last    *smt.Term // argument of the last write that was accepted in full (nil: none)
 }
 
 type FSEntry struct {
@@ -56,6 +57,10 @@ type FileV struct { // *os.File
 	Append bool
 	Closed bool
 	Std    string
+	// Partial: the descriptor accepts only part of its first write and then fails (a pipe whose reader went away,
+	// a full disk): n bytes with 0 < n < len are taken, the call returns (n, err); later writes fail completely
+	Partial bool
+	Broken  bool
 }
 
 func (ex *Executor) fsGet(st *State) *FSState {
@@ -339,8 +344,27 @@ func registerFS(ex *Executor) {
 				return TupleV{smt.IntC(0), ex.mkErr(st, "EIO")}, cNext
 			}
 		}
+		if fv.Broken {
+			return TupleV{smt.IntC(0), ex.mkErr(st, "EPIPE")}, cNext
+		}
+		if fv.Partial {
+			n := st.fresh("partial_n", smt.Int)
+			l := ex.strLen(st, data)
+			st.addPC(smt.Lt(smt.IntC(0), n))
+			st.addPC(smt.Lt(n, l))
+			fs := ex.fsGet(st).clone()
+			ino := fs.Inodes[fv.Ino]
+			ino.Content = smt.Concat(ino.Content, smt.App("prefix", smt.String, data, n))
+			st.Ghost["fs"] = fs
+			nf := *fv
+			nf.Partial, nf.Broken = false, true
+			ex.store(st, p, &nf)
+			st.note("fs: partial write then failure")
+			return TupleV{n, ex.mkErr(st, "EPIPE")}, cNext
+		}
 		fs := ex.fsGet(st).clone()
 		ino := fs.Inodes[fv.Ino]
+		ino.Last = data
 		if fv.Append {
 			ino.Content = smt.Concat(ino.Content, data)
 		} else {
@@ -568,6 +592,33 @@ func registerFS(ex *Executor) {
 	I["@verifNameLess"] = func(ex *Executor, st *State, cc *CallCtx, args []Val) (Val, ctl) {
 		return smt.BoolC(ex.nameLess(st, ex.parseName(strOf(args[0])), ex.parseName(strOf(args[1])))), cNext
 	}
+	// verifPlantFailingFile(f **os.File): the sink's descriptor is replaced by one that takes only part of the next
+	// write and then fails (natively: a pipe whose reader goes away)
+	I["@verifPlantFailingFile"] = func(ex *Executor, st *State, cc *CallCtx, args []Val) (Val, ctl) {
+		fs := ex.fsGet(st).clone()
+		fs.NextIno++
+		fs.Inodes[fs.NextIno] = &FSInode{ID: fs.NextIno, Content: smt.StrC(""), Mode: smt.IntC(0)}
+		st.Ghost["fs"] = fs
+		ft := ex.lookupType("os", "File")
+		np := ex.alloc(st, ft, "os.File:failing-pipe", &FileV{Ino: fs.NextIno, Name: smt.StrC("|pipe"), Append: true, Partial: true})
+		ex.store(st, args[0].(Ptr), np)
+		return nil, cNext
+	}
+	// verifFDEndsWith(f, data): the last write accepted in full by the file f refers to was exactly data
+	I["@verifFDEndsWith"] = func(ex *Executor, st *State, cc *CallCtx, args []Val) (Val, ctl) {
+		p := args[0].(Ptr)
+		if p.Obj == nil {
+			return smt.False, cNext
+		}
+		fv := ex.load(st, p).(*FileV)
+		ino := ex.fsGet(st).Inodes[fv.Ino]
+		if ino.Last == nil {
+			return smt.False, cNext
+		}
+		return smt.Eq(ino.Last, args[1].(*smt.Term)), cNext
+	}
+	// verifBig(s): natively the string is blown up beyond a pipe's capacity; symbolically the identity
+	I["@verifBig"] = func(ex *Executor, st *State, cc *CallCtx, args []Val) (Val, ctl) { return args[0], cNext }
 	I["@verifNameEq"] = func(ex *Executor, st *State, cc *CallCtx, args []Val) (Val, ctl) {
 		return nameEq(ex.parseName(strOf(args[0])), ex.parseName(strOf(args[1]))), cNext
 	}
